@@ -14,7 +14,9 @@ global size_of usize == 8;
 pub fn min(a: u64, b: u64) -> (r: u64) ensures r == if a <= b { a } else { b } { if a <= b { a } else { b } }
 pub fn max(a: usize, b: usize) -> (r: usize) ensures r == if a >= b { a } else { b } { if a >= b { a } else { b } }
 
+#[derive(Clone, Copy)]
 pub struct MerkleHash(pub [u64; 4]);
+#[derive(Clone, Copy)]
 pub struct HexMerkleHash(pub MerkleHash);
 
 //@ extract cas_types/src/lib.rs struct Range
@@ -72,7 +74,7 @@ impl TermWriteCall {
 #[verifier::external_body] pub struct SemaphoreStub { _p: () }     // Arc<Semaphore>
 #[verifier::external_body] pub struct PermitStub { _p: () }
 #[verifier::external_body] pub struct FetchInfoStub { _p: () }     // Arc<HashMap<HexMerkleHash, Vec<CASReconstructionFetchInfo>>>
-pub struct TermWriteTask { pub http_client: HttpStub, pub chunk_cache: CacheStub, pub range_download_single_flight: SingleFlightStub,
+pub struct TermWriteTask { pub http_client: HttpStub, pub chunk_cache: Option<CacheStub>, pub range_download_single_flight: SingleFlightStub,
     pub fetch_info: FetchInfoStub, pub semaphore: SemaphoreStub, pub output: OutputProvider }
 #[verifier::external_body] pub fn vx_acquire(s: &SemaphoreStub) -> (r: Result<PermitStub>) { unimplemented!() }
 impl TermWriteTask {
@@ -325,8 +327,6 @@ fn vx_stream_iter(futs_iter: TermFutures) -> (r: FutStream)
 { unimplemented!() }
 uninterp spec fn spec_NUM_CONCURRENT_RANGE_GETS() -> usize;
 #[verifier::external_body] fn NUM_CONCURRENT_RANGE_GETS() -> (r: usize) ensures r == spec_NUM_CONCURRENT_RANGE_GETS() { unimplemented!() }
-// what `get_one_term` returns for a term: the unpacked bytes of its chunk range (network / cache: outside reach)
-uninterp spec fn term_payload(term: CASReconstructionTerm) -> Seq<u8>;
 #[verifier::external_body] struct RemoteClient { _p: () }
 impl RemoteClient {
     spec fn plan_data(&self, terms: Seq<CASReconstructionTerm>) -> Seq<Seq<u8>> {
@@ -427,56 +427,169 @@ proof fn lemma_sum_unpacked_is_sum_len(terms: Seq<CASReconstructionTerm>, data: 
 { if n > 0 { lemma_sum_unpacked_is_sum_len(terms, data, n - 1); } }
 
 // ======================================================================================================================
-// (iii) fetch side: range guard and trimming of `get_one_term`, range check and positioned write of `write_term`
-//@ extract cas_client/src/remote_client.rs region get_one_term
-//@ from-after `debug!("term: {term:?}");`
-//@ to-before `if let Some(cache) = &chunk_cache` #1
-//@ sig `fn term_range_guard(term: &CASReconstructionTerm) -> (r: Result<()>)`
-//@ epilogue `Ok(())`
-//@ contract
-    ensures /*@C17*/ r is Ok <==> term.range.start <= term.range.end,
-//@ end
-
-// the fetched blob: `data` = the unpacked chunks of fetch_term.range back to back, chunk_byte_indices = [0, end of chunk 0, ..]
-// (contract of `download_range` / `deserialize_chunks_from_stream`, ASSUMED: a truthful store returns exactly that chunk range)
+// (iii) fetch side: the WHOLE body of `get_one_term` (guard, warm cache branch, fetch_info selection, single-flight download,
+// cache fill, trimming, length check), then the whole body of `write_term`
+//
+// Ground truth and store model (uninterpreted):
+//   xorb_chunk_bytes(h, s, e)   unpacked bytes of chunks [s, e) of xorb h
+//   range_data(url, url_range)  what the blob store serves for a GET of `url` with `Range: url_range`, decoded
+//                               (`download_range`: data + chunk_byte_indices)
+//   url_range_of(url)           the byte range a (presigned) url is issued for
+uninterp spec fn xorb_chunk_bytes(h: HexMerkleHash, s: int, e: int) -> Seq<u8>;
+uninterp spec fn range_data(url: Seq<char>, url_range: HttpRange) -> (Seq<u8>, Seq<u32>);
+uninterp spec fn url_range_of(url: Seq<char>) -> HttpRange;
+uninterp spec fn hex_string(h: HexMerkleHash) -> Seq<char>;
+impl HexMerkleHash {   // `Display`/`ToString` of the hash (hex text)
+    #[verifier::external_body] fn to_string(&self) -> (r: String) ensures r@ == hex_string(*self), { unimplemented!() }
+}
+// the fetched blob: `data` = the unpacked chunks of the fetch range back to back, cbi = [0, end of chunk 0, ..]
 spec fn fetched_ok(data: Seq<u8>, cbi: Seq<u32>, nchunks: int) -> bool {
     &&& cbi.len() == nchunks + 1
     &&& cbi[0] == 0
     &&& cbi[nchunks] == data.len()
     &&& forall|a: int, b: int| 0 <= a < b < cbi.len() ==> cbi[a] < cbi[b]     // chunks are non-empty
 }
+// PLAN-VALIDITY DOMAIN of a fetch_info entry `e` listed under xorb `h` (truthful reconstruction response + truthful store):
+spec fn entry_ok(h: HexMerkleHash, e: CASReconstructionFetchInfo) -> bool {
+    let d = range_data(e.url@, e.url_range);
+    &&& e.range.start <= e.range.end
+    // the url is issued for exactly this byte range (see notes: the client code itself never checks this)
+    &&& e.url_range == url_range_of(e.url@)
+    &&& fetched_ok(d.0, d.1, e.range.end - e.range.start)
+    // the served chunks are the xorb's chunks e.range
+    &&& forall|a: int, b: int| 0 <= a <= b <= e.range.end - e.range.start ==>
+            d.0.subrange(d.1[a] as int, d.1[b] as int) == #[trigger] xorb_chunk_bytes(h, e.range.start + a, e.range.start + b)
+}
 spec fn trim_want(term: CASReconstructionTerm, fetch_term: CASReconstructionFetchInfo, data: Seq<u8>, cbi: Seq<u32>) -> Seq<u8> {
     data.subrange(cbi[term.range.start - fetch_term.range.start] as int, cbi[term.range.end - fetch_term.range.start] as int)
 }
+// what a term denotes
+spec fn term_payload(term: CASReconstructionTerm) -> Seq<u8> { xorb_chunk_bytes(term.hash, term.range.start as int, term.range.end as int) }
+
+// ---- single flight -------------------------------------------------------------------------------------------------------
+// `Group::work(key, fut)`: concurrent callers with the same key share ONE execution; a caller gets the result of SOME task
+// submitted under its key — possibly another caller's.  Every submission goes through this one call site, whose obligation
+// (the stub's precondition, discharged in get_one_term) is: the key is `flight_key(url, url_range)` of the download it submits.
+// `flight_key` must determine the download: lemma_flight_key_determines (proved, over the domain `url_range_of`).
+spec fn flight_key(url: Seq<char>, url_range: HttpRange) -> Seq<char> { url }
+proof fn lemma_flight_key_determines(u1: Seq<char>, r1: HttpRange, u2: Seq<char>, r2: HttpRange)
+    requires r1 == url_range_of(u1), r2 == url_range_of(u2), flight_key(u1, r1) == flight_key(u2, r2),
+    ensures u1 == u2, r1 == r2,
+{}
+// the future `download_range(http_client, fetch_term, hash)`: GET fetch_term.url with Range fetch_term.url_range, decode the chunks
+#[verifier::external_body] struct DownloadFut { _p: () }
+impl DownloadFut { uninterp spec fn url(&self) -> Seq<char>; uninterp spec fn url_range(&self) -> HttpRange; }
+#[verifier::external_body]
+fn download_range(http_client: HttpStub, fetch_term: CASReconstructionFetchInfo, hash: HexMerkleHash) -> (r: DownloadFut)
+    ensures r.url() == fetch_term.url@, r.url_range() == fetch_term.url_range,
+{ unimplemented!() }
+impl SingleFlightStub {
+    #[verifier::external_body]
+    fn work_dump_caller_info(&self, key: &String, fut: DownloadFut) -> (r: Result<(Vec<u8>, Vec<u32>)>)
+        requires
+            // OBLIGATION at the call site: the key is the flight key of what this caller downloads
+            /*@C17*/ key@ == flight_key(fut.url(), fut.url_range()),
+        ensures
+            // the result of SOME download submitted under this key (each submitted by this call site, hence under its flight key)
+            r matches Ok(p) ==> exists|u: Seq<char>, rg: HttpRange| rg == url_range_of(u) && #[trigger] flight_key(u, rg) == key@
+                && (p.0@, p.1@) == range_data(u, rg),
+    { unimplemented!() }
+}
+// ---- chunk cache (warm path): returns the chunks that were put for that key and range (put is fed by the cold path below) ----
+//@ extract chunk_cache/src/lib.rs struct CacheRange
+//@ subst `Arc<[u32]>` => `ArcU32s` :: R11 stub type
+//@ subst `Arc<[u8]>` => `ArcBytes` :: R11 stub type
+//@ end
+//@ extract cas_types/src/key.rs struct Key
+//@ end
+//@ extract cas_client/src/remote_client.rs const PREFIX_DEFAULT
+//@ subst `&str` => `&'static str` :: explicit lifetime (Verus does not elide it on consts)
+//@ end
+#[verifier::external_body] struct ArcU32s { _p: () }
+#[verifier::external_body] struct ArcBytes { _p: () }
+impl ArcBytes {
+    uninterp spec fn view(&self) -> Seq<u8>;
+    #[verifier::external_body] fn to_vec(&self) -> (r: Vec<u8>) ensures r@ == self@, { unimplemented!() }
+}
+struct ChunkCacheError { _p: () }
+uninterp spec fn hex_of(m: MerkleHash) -> HexMerkleHash;
+#[verifier::external_body] fn vx_into_merklehash(h: HexMerkleHash) -> (r: MerkleHash) ensures hex_of(r) == h, { unimplemented!() }
+impl CacheStub {
+    #[verifier::external_body]
+    fn get(&self, key: &Key, range: &ChunkRange) -> (r: std::result::Result<Option<CacheRange>, ChunkCacheError>)
+        ensures r matches Ok(Some(c)) ==> c.data@ == xorb_chunk_bytes(hex_of(key.hash), range.start as int, range.end as int),
+    { unimplemented!() }
+    #[verifier::external_body]
+    fn put(&self, key: &Key, range: &ChunkRange, chunk_byte_indices: &Vec<u32>, data: &Vec<u8>) -> (r: Result<()>)
+        requires
+            // what is put IS the xorb's chunk range (keeps the cache contract above truthful): obligation on the cold path
+            /*@C17*/ fetched_ok(data@, chunk_byte_indices@, range.end - range.start),
+            /*@C17*/ data@ == xorb_chunk_bytes(hex_of(key.hash), range.start as int, range.end as int),
+    { unimplemented!() }
+}
+impl FetchInfoStub {
+    uninterp spec fn entries(&self, h: HexMerkleHash) -> Option<Seq<CASReconstructionFetchInfo>>;
+    spec fn all_ok(&self) -> bool {
+        forall|h: HexMerkleHash, i: int| self.entries(h) is Some && 0 <= i < self.entries(h)->Some_0.len() ==> entry_ok(h, #[trigger] self.entries(h)->Some_0[i])
+    }
+    #[verifier::external_body]
+    fn get(&self, h: &HexMerkleHash) -> (r: Option<&Vec<CASReconstructionFetchInfo>>)
+        ensures match r { Some(v) => self.entries(*h) == Some(v@), None => self.entries(*h) is None },
+    { unimplemented!() }
+}
+impl CASReconstructionFetchInfo {   // inherent stand-in for the derived `Clone::clone`
+    #[verifier::external_body] fn clone(&self) -> (r: Self) ensures r == *self, { unimplemented!() }
+}
+// R7 outline of `hash_fetch_info.iter().find(|fterm| fterm.range.start <= term.range.start && fterm.range.end >= term.range.end)`
+// (iterator + closure): ASSUMED to return an element of the list satisfying that predicate (or None if there is none)
+#[verifier::external_body]
+fn vx_find_fetch_term<'a>(hash_fetch_info: &'a Vec<CASReconstructionFetchInfo>, term: &CASReconstructionTerm) -> (r: Option<&'a CASReconstructionFetchInfo>)
+    ensures r matches Some(f) ==> (exists|i: int| 0 <= i < hash_fetch_info@.len() && hash_fetch_info@[i] == *f)
+        && f.range.start <= term.range.start && f.range.end >= term.range.end,
+{ hash_fetch_info.iter().find(|fterm| fterm.range.start <= term.range.start && fterm.range.end >= term.range.end) }
+
 //@ extract cas_client/src/remote_client.rs region get_one_term
-//@ from-after `&chunk_byte_indices, &data)?; }`
-//@ to-before `}` #9
-//@ sig `fn trim_to_term(term: CASReconstructionTerm, fetch_term: CASReconstructionFetchInfo, mut data: Vec<u8>, chunk_byte_indices: Vec<u32>) -> (r: Result<Vec<u8>>)`
+//@ block `range_download_single_flight: RangeDownloadSingleFlight, ) -> Result<Vec<u8>> {`
+//@ sig `fn get_one_term(http_client: HttpStub, chunk_cache: Option<CacheStub>, term: CASReconstructionTerm, fetch_info: FetchInfoStub, range_download_single_flight: SingleFlightStub) -> (r: Result<Vec<u8>>)`
+//@ subst `term.hash.into()` => `vx_into_merklehash(term.hash)` :: R11 stub for `From<HexMerkleHash> for MerkleHash` (newtype unwrap)
+//@ subst `hash_fetch_info.iter().find(|fterm| fterm.range.start <= term.range.start && fterm.range.end >= term.range.end)` => `vx_find_fetch_term(hash_fetch_info, &term)` :: R7 outline of iterator find with a closure; contract assumed (an element satisfying the predicate)
 //@ subst `format!("result term data length {} did not match expected value {}", data.len(), term.unpacked_length)` => `vx_fmt_len_mismatch(data.len(), term.unpacked_length)` :: R7 outline: format! of an error message
 //@ contract
     requires
-        // established by the `find` predicate that selected fetch_term, and by the range guard
-        fetch_term.range.start <= term.range.start, term.range.end <= fetch_term.range.end,
-        // plan-validity domain: a term names at least one chunk (the guard admits start == end, the debug_asserts do not)
-        term.range.start < term.range.end,
-        fetched_ok(data@, chunk_byte_indices@, fetch_term.range.end - fetch_term.range.start),
+        // plan-validity domain: every fetch_info entry is truthful (entry_ok), a term names at least one chunk or is reversed
+        // (the guard admits start == end, the trimming debug_asserts do not)
+        fetch_info.all_ok(),
+        term.range.start != term.range.end,
     ensures
-        // data' == data[cbi[s] .. cbi[e]] and the final length check
-        /*@C17*/ r matches Ok(d) ==> d@ == trim_want(term, fetch_term, data@, chunk_byte_indices@),
-        /*@C17*/ r matches Ok(d) ==> d@.len() == term.unpacked_length,
-        /*@C17*/ r is Ok <==> trim_want(term, fetch_term, data@, chunk_byte_indices@).len() == term.unpacked_length,
-//@ body-start
+        /*@C17*/ term.range.end < term.range.start ==> r is Err,
+        // cold AND warm: the returned bytes are the term's chunks — for the cold path: the slice, by chunk byte indices, of what the
+        // store serves for THIS term's fetch entry (asserted literally before the trimming block)
+        /*@C17*/ r matches Ok(d) ==> d@ == term_payload(term),
+        // the length check is only made on the cold path: a warm hit is returned unchecked
+        /*@C17*/ chunk_cache is None ==> (r matches Ok(d) ==> d@.len() == term.unpacked_length),
+//@ after `.clone();`
+    proof {
+        let v = fetch_info.entries(term.hash)->Some_0;
+        let i = choose|i: int| 0 <= i < v.len() && v[i] == fetch_term;
+        assert(entry_ok(term.hash, v[i]));
+    }
+//@ before `if let Some(cache) = chunk_cache`
     let ghost data0 = data@;
-    proof { assert(data0.subrange(0, data0.len() as int) =~= data0); }
+    let ghost cbi0 = chunk_byte_indices@;
+    proof {
+        // single flight: the shared result is THIS caller's download because the key determines (url, url_range)
+        let (u, rg) = choose|u: Seq<char>, rg: HttpRange| rg == url_range_of(u) && #[trigger] flight_key(u, rg) == fetch_term.url@ && (data0, cbi0) == range_data(u, rg);
+        lemma_flight_key_determines(u, rg, fetch_term.url@, fetch_term.url_range);
+        /*@C17*/ assert((data0, cbi0) == range_data(fetch_term.url@, fetch_term.url_range));
+        let n = fetch_term.range.end - fetch_term.range.start;
+        assert(data0.subrange(0, data0.len() as int) =~= data0);
+        assert(data0.subrange(cbi0[0] as int, cbi0[n] as int) == xorb_chunk_bytes(term.hash, fetch_term.range.start + 0, fetch_term.range.start + n));
+        assert(trim_want(term, fetch_term, data0, cbi0) == xorb_chunk_bytes(term.hash, fetch_term.range.start + (term.range.start - fetch_term.range.start), fetch_term.range.start + (term.range.end - fetch_term.range.start)));
+    }
 //@ after `data = data.split_off(start_byte_index);`
         proof { assert(data@ =~= data0.subrange(start_byte_index as int, end_byte_index as int)); }
 //@ end
 
-// the whole of `get_one_term` as `write_term` sees it (its trimming block and guards are verified above; network and cache assumed)
-#[verifier::external_body]
-fn get_one_term(http_client: HttpStub, chunk_cache: CacheStub, term: CASReconstructionTerm, fetch_info: FetchInfoStub, range_download_single_flight: SingleFlightStub) -> (r: Result<Vec<u8>>)
-    ensures r matches Ok(v) ==> v@ == term_payload(term),
-{ unimplemented!() }
 impl TermWriteTask {
 // the WHOLE body of `write_term`
 //@ extract cas_client/src/remote_client.rs in `impl TermWriteTask` region write_term
@@ -488,6 +601,8 @@ impl TermWriteTask {
     requires
         // from the planner (par_plan_term): start <= end (else `term_range.end - term_range.start` underflows)
         term_range.start <= term_range.end,
+        // plan-validity domain of get_one_term
+        self.fetch_info.all_ok(), term.range.start != term.range.end,
     ensures
         /*@C17*/ term_range.end > term_payload(term).len() ==> r is Err,
         // output image == the image the task found, with term_data[start..end] written at file_offset; reported length == bytes written
